@@ -26,3 +26,5 @@ def run(prog, rep):
     _rsn.run_namebuf(prog, rep)
     _ro2.run_lookup_via(prog, rep)
     _ro2.run_exact_compare(prog, rep)
+    from ..rules import r_io as _riosb
+    _riosb.run_string_buffers(prog, rep)
